@@ -7,6 +7,10 @@ import Proofs.InterpOps
 import Proofs.InterpStore
 import Proofs.InterpAttr
 import Proofs.InterpNav
+import Proofs.InterpEffects
+import Proofs.InterpBridge
+import Proofs.InterpUnroll
+import Proofs.InterpExamples
 
 /-!
   C04 — Interpreted OAL computes what the action language defines.
@@ -48,14 +52,16 @@ theorem spec_deterministic (C : Ctx) :
 
 /-! ## the language rules -/
 
-/-- `if` on a true condition runs the then-block, on a false one the elif/else part -/
+/-- `if` on a true condition runs the then-block, on a false one the elif/else part
+    [spec equation: one clause of `execStep`, lifted over fuel] -/
 theorem spec_laws_if (C : Ctx) (c : Expr) (thn : Block) (elifs : List (Expr × Block)) (els : Option Block)
     (cfg c1 : Cfg) (r : Except Err (Out × Cfg)) :
     (Evals C c cfg (.ok (.bool true, c1)) → (Execs C (.ifS c thn elifs els) cfg r ↔ BlockExecs C thn c1 r)) ∧
     (Evals C c cfg (.ok (.bool false, c1)) → (Execs C (.ifS c thn elifs els) cfg r ↔ ElifsExecs C elifs els c1 r)) :=
   ⟨fun h => ifS_true h, fun h => ifS_false h⟩
 
-/-- an elif chain is the nested if; the end of the chain is the else block, or nothing -/
+/-- an elif chain is the nested if; the end of the chain is the else block, or nothing
+    [spec equation] -/
 theorem spec_laws_elif (C : Ctx) (c : Expr) (b : Block) (rest : List (Expr × Block)) (els : Option Block)
     (cfg : Cfg) (r : Except Err (Out × Cfg)) :
     (ElifsExecs C ((c, b) :: rest) els cfg r ↔ Execs C (.ifS c b rest els) cfg r) ∧
@@ -75,52 +81,75 @@ theorem spec_laws_while (C : Ctx) (c : Expr) (body : Block) (cfg : Cfg) :
           whileAfter C c body o c2 (.ok (o', c')))) :=
   ⟨fun _ h => while_false h, fun _ _ _ _ h1 h2 h3 => while_true h1 h2 h3, fun _ _ h => while_inv h⟩
 
-/-- what "go round again / leave the loop" means after one round (`whileAfter`), spelled out -/
+/-- what "go round again / leave the loop" means after one round (`whileAfter`), spelled out
+    [spec equation: `whileAfter` unfolded, by definition] -/
 theorem spec_laws_while_after (C : Ctx) (c : Expr) (body : Block) (c2 : Cfg) (r : Except Err (Out × Cfg)) :
     (whileAfter C c body .normal c2 r ↔ Execs C (.whileS c body) c2 r) ∧
     (whileAfter C c body .cont c2 r ↔ Execs C (.whileS c body) c2 r) ∧
     (whileAfter C c body .brk c2 r ↔ r = .ok (.normal, c2)) ∧
     (whileAfter C c body .ret c2 r ↔ r = .ok (.ret, c2)) ∧
+    (whileAfter C c body .retBare c2 r ↔ r = .ok (.retBare, c2)) ∧
     (whileAfter C c body .stop c2 r ↔ r = .ok (.stop, c2)) :=
-  ⟨Iff.rfl, Iff.rfl, Iff.rfl, Iff.rfl, Iff.rfl⟩
+  ⟨Iff.rfl, Iff.rfl, Iff.rfl, Iff.rfl, Iff.rfl, Iff.rfl⟩
+
+/-- **loop unrolling, errors included**: the outcome `r` of `while c body` — a completed outcome or a domain error — is
+    exactly one of: the condition's error; a non-boolean condition (error); condition false: normal completion; condition
+    true and the body's error; condition true, the body completes with outcome `o`, and `r` is what `whileAfter`
+    prescribes (normal / continue: the outcome of the same loop started after the body; break: normal; return / stop:
+    passed on).  An equivalence, for every amount of fuel. -/
+theorem spec_laws_while_unroll (C : Ctx) (c : Expr) (body : Block) (cfg : Cfg) (r : Except Err (Out × Cfg)) :
+    Execs C (.whileS c body) cfg r ↔
+      (∃ e, Evals C c cfg (.error e) ∧ r = .error e) ∨
+      (∃ v c1 e, Evals C c cfg (.ok (v, c1)) ∧ boolOf v = none ∧ asBool v c1 = some (.error e) ∧ r = .error e) ∨
+      (∃ c1, Evals C c cfg (.ok (.bool false, c1)) ∧ r = .ok (.normal, c1)) ∨
+      (∃ c1 e, Evals C c cfg (.ok (.bool true, c1)) ∧ BlockExecs C body c1 (.error e) ∧ r = .error e) ∨
+      (∃ c1 c2 o, Evals C c cfg (.ok (.bool true, c1)) ∧ BlockExecs C body c1 (.ok (o, c2)) ∧
+        whileAfter C c body o c2 r) :=
+  while_unroll
 
 /-- `for each v in s` reads the set ONCE (a snapshot) and is the sequential composition of the body over its
-    elements in set order, the loop variable being assigned in the block that holds the loop -/
+    elements in set order, the loop variable being assigned in the block that holds the loop
+    [spec equation, lifted over fuel] -/
 theorem spec_laws_foreach (C : Ctx) (v setv : String) (body : Block) (items : List Inst) (cfg : Cfg)
     (r : Except Err (Out × Cfg)) :
-    (envLookup cfg.fr.env setv = some (.set items) →
+    (selfHit cfg.fr setv = false → envLookup cfg.fr.env setv = some (.set items) →
         (Execs C (.forEach v setv body) cfg r ↔ ItemsExecs C v body items cfg r)) ∧
     ItemsExecs C v body [] cfg (.ok (.normal, cfg)) ∧
     (∀ i rest c2 o,
         BlockExecs C body { cfg with fr := { cfg.fr with env := envInstall cfg.fr.env v (.inst i) } } (.ok (o, c2)) →
         itemsAfter C v body rest o c2 r → ItemsExecs C v body (i :: rest) cfg r) :=
-  ⟨fun h => foreach_is_items h, items_nil, fun _ _ _ _ h1 h2 => items_cons h1 h2⟩
+  ⟨fun h0 h => foreach_is_items h0 h, items_nil, fun _ _ _ _ h1 h2 => items_cons h1 h2⟩
 
+/-- [spec equation: `itemsAfter` unfolded, by definition] -/
 theorem spec_laws_foreach_after (C : Ctx) (v : String) (body : Block) (rest : List Inst) (c2 : Cfg)
     (r : Except Err (Out × Cfg)) :
     (itemsAfter C v body rest .normal c2 r ↔ ItemsExecs C v body rest c2 r) ∧
     (itemsAfter C v body rest .cont c2 r ↔ ItemsExecs C v body rest c2 r) ∧
     (itemsAfter C v body rest .brk c2 r ↔ r = .ok (.normal, c2)) ∧
     (itemsAfter C v body rest .ret c2 r ↔ r = .ok (.ret, c2)) ∧
+    (itemsAfter C v body rest .retBare c2 r ↔ r = .ok (.retBare, c2)) ∧
     (itemsAfter C v body rest .stop c2 r ↔ r = .ok (.stop, c2)) :=
-  ⟨Iff.rfl, Iff.rfl, Iff.rfl, Iff.rfl, Iff.rfl⟩
+  ⟨Iff.rfl, Iff.rfl, Iff.rfl, Iff.rfl, Iff.rfl, Iff.rfl⟩
 
-/-- sequencing; `break`, `continue`, `return`, `control stop` abort the rest of every enclosing list -/
+/-- sequencing; `break`, `continue`, `return`, `control stop` abort the rest of every enclosing list
+    [spec equation] -/
 theorem spec_laws_sequence (C : Ctx) (s : Stmt) (rest : List Stmt) (cfg c1 : Cfg) :
     ListExecs C [] cfg (.ok (.normal, cfg)) ∧
     (∀ r, Execs C s cfg (.ok (.normal, c1)) → ListExecs C rest c1 r → ListExecs C (s :: rest) cfg r) ∧
     (∀ o, Execs C s cfg (.ok (o, c1)) → o ≠ .normal → ListExecs C (s :: rest) cfg (.ok (o, c1))) :=
   ⟨list_nil, fun _ h1 h2 => list_cons_normal h1 h2, fun _ h1 h2 => list_cons_abrupt h1 h2⟩
 
-/-- the control statements: their outcome, no effect; `return e` additionally stores the value -/
+/-- the control statements: their outcome, no effect; `return e` additionally stores the value
+    [spec equation] -/
 theorem spec_laws_control (C : Ctx) (cfg : Cfg) :
     Execs C .brk cfg (.ok (.brk, cfg)) ∧ Execs C .cont cfg (.ok (.cont, cfg)) ∧
-    Execs C .stop cfg (.ok (.stop, cfg)) ∧ Execs C (.ret none) cfg (.ok (.ret, cfg)) ∧
+    Execs C .stop cfg (.ok (.stop, cfg)) ∧ Execs C (.ret none) cfg (.ok (.retBare, cfg)) ∧
     (∀ e v c1, Evals C e cfg (.ok (v, c1)) →
         Execs C (.ret (some e)) cfg (.ok (.ret, { c1 with fr := { c1.fr with ret := v } }))) :=
   ⟨exec_break, exec_continue, exec_stop, exec_return_bare, fun _ _ _ h => exec_return_value h⟩
 
-/-- a block is its statement list between entering and leaving a block of variables; it passes the outcome on -/
+/-- a block is its statement list between entering and leaving a block of variables; it passes the outcome on
+    [spec equation] -/
 theorem spec_laws_block (C : Ctx) (b : Block) (cfg c' : Cfg) (o : Out) :
     BlockExecs C b cfg (.ok (o, c')) ↔
       ∃ c2, ListExecs C b { cfg with fr := { cfg.fr with env := [] :: cfg.fr.env } } (.ok (o, c2)) ∧
@@ -140,7 +169,8 @@ theorem spec_laws_stmt_scope (C : Ctx) (n : Nat) (s : Stmt) (c c' : Cfg) (o : Ou
     c'.fr.env ≠ [] ∧ envNames c'.fr.env.tail = envNames c.fr.env.tail :=
   rsh_run C n s c o c' h hne
 
-/-- assignment and lookup -/
+/-- assignment and lookup
+    [spec equation + the two lookup laws of `envInstall`] -/
 theorem spec_laws_assign (C : Ctx) (x : String) (e : Expr) (cfg c1 : Cfg) (v : Val)
     (he : Evals C e cfg (.ok (v, c1))) :
     Execs C (.assignVar x e) cfg (.ok (.normal, { c1 with fr := { c1.fr with env := envInstall c1.fr.env x v } })) ∧
@@ -158,6 +188,7 @@ theorem spec_laws_select_where (rec : Oracle) (wh : Expr) (p : Inst → Bool) (c
       some (.ok ((match cands.find? p with | none => Val.none | some i => .inst i), c)) :=
   ⟨select_many_where cands hp, select_any_where cands hp⟩
 
+/-- [spec equation + the laws of `dedup`] -/
 theorem spec_laws_select_plain (rec : Oracle) (cands : List Inst) (c : Cfg) :
     selectResult rec true cands none c = some (.ok (.set (dedup cands), c)) ∧
     selectResult rec false cands none c = some (.ok ((match cands with | [] => Val.none | i :: _ => .inst i), c)) ∧
@@ -173,7 +204,8 @@ theorem spec_laws_navigation (C : Ctx) (st : State) (steps : List NavStep) (star
       y ∈ follow st l i ↔ (if l.toSource then (y, i) ∈ st.links l.k else (i, y) ∈ st.links l.k)) :=
   ⟨mem_navChain h y, fun l i => mem_follow st l i y⟩
 
-/-- cardinality / empty / not_empty -/
+/-- cardinality / empty / not_empty
+    [spec equation] -/
 theorem spec_laws_cardinality (i : Inst) (l : List Inst) :
     unop .card .none = .ok (.int 0) ∧ unop .card (.inst i) = .ok (.int 1) ∧ unop .card (.set l) = .ok (.int l.length) ∧
     unop .empty .none = .ok (.bool true) ∧ unop .empty (.inst i) = .ok (.bool false) ∧
@@ -181,25 +213,33 @@ theorem spec_laws_cardinality (i : Inst) (l : List Inst) :
     (∀ v b, unop .empty v = .ok (.bool b) → unop .notEmpty v = .ok (.bool (!b))) :=
   ⟨rfl, rfl, rfl, rfl, rfl, rfl, notEmpty_is_not_empty⟩
 
-/-- arithmetic: `/` truncates toward zero — exactly what the interpreter's `divide` computes on integers — and is an
-    error on a zero divisor; `%` is defined on the non-negative domain, where all conventions agree;
-    `+` on strings concatenates; `and` / `or` / `not` are the boolean operations -/
+/-- arithmetic: `/` truncates toward zero — exactly what the interpreter's `divide` computes on integers for a non-zero
+    divisor — and is an error on a zero divisor; `%` is the remainder of that division (`(x / y) * y + x % y = x`, sign of
+    the dividend) — exactly what the interpreter's `modulo` computes on integers for a non-zero divisor —, an error on
+    a zero divisor, and coincides with every other convention (floor, Euclid) on non-negative
+    operands; `+` on strings concatenates; `and` / `or` / `not` are the boolean operations -/
 theorem spec_laws_arithmetic (x y : Int) (s t : String) (a b : Bool) :
     (y ≠ 0 → binop .div (.int x) (.int y) = .ok (.int (Int.tdiv x y))) ∧
-    pyDivide x y = Int.tdiv x y ∧
+    (y ≠ 0 → pyDivide x y = Int.tdiv x y) ∧
     (∃ e, binop .div (.int x) (.int 0) = .error e) ∧
-    (0 ≤ x → 0 < y → binop .mod (.int x) (.int y) = .ok (.int (x % y)) ∧
-        x % y = Int.tmod x y ∧ x % y = Int.fmod x y) ∧
+    (y ≠ 0 → binop .mod (.int x) (.int y) = .ok (.int (Int.tmod x y))) ∧
+    (y ≠ 0 → pyModulo x y = Int.tmod x y) ∧
+    (∃ e, binop .mod (.int x) (.int 0) = .error e) ∧
+    Int.tdiv x y * y + Int.tmod x y = x ∧
+    (0 ≤ x → 0 < y → Int.tmod x y = x % y ∧ Int.tmod x y = Int.fmod x y) ∧
     binop .add (.str s) (.str t) = .ok (.str (s ++ t)) ∧
     binop .add (.int x) (.int y) = .ok (.int (x + y)) ∧
     binop .and (.bool a) (.bool b) = .ok (.bool (a && b)) ∧
     binop .or (.bool a) (.bool b) = .ok (.bool (a || b)) ∧
     unop .not (.bool a) = .ok (.bool (!a)) := by
-  refine ⟨fun hy => by simp [binop, hy], pyDivide_eq_tdiv x y, ⟨_, by simp [binop]; rfl⟩, ?_, rfl, rfl, rfl, rfl, rfl⟩
+  refine ⟨fun hy => by simp [binop, hy], pyDivide_eq_tdiv x y, ⟨_, by simp [binop]; rfl⟩, fun hy => by simp [binop, hy],
+    pyModulo_eq_tmod x y, ⟨_, by simp [binop]; rfl⟩, tdiv_tmod_identity x y, ?_, rfl, rfl, rfl, rfl, rfl⟩
   intro hx hy
-  exact ⟨by simp [binop, hx, hy], mod_conventions_agree x y hx hy⟩
+  have := mod_conventions_agree x y hx hy
+  exact ⟨this.1.symm, this.1.symm.trans this.2⟩
 
-/-- `relate a to b across R using l` is two relates; `unrelate … using` two unrelates -/
+/-- `relate a to b across R using l` is two relates; `unrelate … using` two unrelates
+    [spec equation] -/
 theorem spec_laws_relate_using (C : Ctx) (x y w : Inst) (rel phrase : String) (st : State) :
     relateUsing C x y w rel phrase st = (relate C x w rel phrase st).bind (relate C w y rel phrase) ∧
     unrelateUsing C x y w rel phrase st = (unrelate C x w rel phrase st).bind (unrelate C w y rel phrase) := by
@@ -385,6 +425,51 @@ theorem attr_refines {decl : Nat → List AttrDecl} {at_ : Pyx.Meta.Attrs} {sch 
       (specRunA kname decl at_ (ctxOfA kname decl kinds sch) sch ops Pyx.Meta.init d0 ι0 initState).2 :=
   Pyx.Interp.attr_refines hk kinds hok ι0 d0 ops hd
 
+/-! ### program execution meets the mechanism (Proofs/InterpEffects.lean, Proofs/InterpBridge.lean) -/
+
+/-- whatever a program does to the relational state is a history of state operations: a run — any statements, nesting,
+    loops, calls, any fuel — that ends normally reaches its final state from the initial one through a finite list of
+    successful `create` / `delete` / `relate` / `unrelate` / attribute-write operations on named instances
+    (`relate … using` / `unrelate … using` are two of them); the same for one statement and one expression -/
+theorem program_effects (C : Ctx) (fuel : Nat) :
+    (∀ body kw st st' v, runFunction C fuel body kw st = some (.ok (v, st')) → ∃ es, applyEffs C es st = .ok st') ∧
+    (∀ s c c' o, (run C fuel).exec s c = some (.ok (o, c')) → ∃ es, applyEffs C es c.st = .ok c'.st) ∧
+    (∀ e c c' v, (run C fuel).eval e c = some (.ok (v, c')) → ∃ es, applyEffs C es c.st = .ok c'.st) :=
+  ⟨fun body kw st st' v h => runFunction_effects C fuel body kw st st' v h,
+   fun s c c' o h => exec_effects C fuel s c c' o h, fun e c c' v h => eval_effects C fuel e c c' v h⟩
+
+/-- **program execution meets the mechanism**: let the `Spec` state `st` correspond to the mechanism state `(s, d)`
+    (`RefinesA`: both initial, or both after any history of the domain).  A program run from `st` that ends normally in
+    `st'` reaches `st'` through a history `es` of successful state operations, and — if `es` assigns no class's own
+    identifying id attribute (outside the refinement's domain, as in `attr_writes`) — there is a history `ops` of
+    MECHANISM operations (`Meta.new` / `relate` / `unrelate` / `delete`, `setattr`) of the domain after which the
+    mechanism state corresponds to `st'`: pools in creation order, both directions of every association in link order,
+    attribute values and the id counter of the mechanism are what the program's final `Spec` state says.
+    (`Closed`: instances live only in classes the context declares — true initially, kept by every operation.) -/
+theorem program_refines {decl : Nat → List AttrDecl} {at_ : Pyx.Meta.Attrs} {sch : Pyx.Meta.Schema} {d : MDict}
+    (hk : Function.Injective kname) (kinds : List Nat) (hok : SchemaOk sch)
+    (hD : ∀ k ∈ kinds, DeclOk decl at_ sch k)
+    (R : RefinesA kname decl at_ sch ι s d st) (A : AllInv sch s) (hc : Closed kname kinds st)
+    (fuel : Nat) (body : Block) (kw : List (String × Val)) (v : Val) (st' : State)
+    (h : runFunction (ctxOfA kname decl kinds sch) fuel body kw st = some (.ok (v, st'))) :
+    ∃ es, applyEffs (ctxOfA kname decl kinds sch) es st = .ok st' ∧
+      ((∀ e ∈ es, NoIdWrite kname at_ e) →
+        ∃ ops ι', DomA decl at_ sch kinds s d ops ∧
+          RefinesA kname decl at_ sch ι' (mRunA decl at_ sch ops s d).1 (mRunA decl at_ sch ops s d).2 st') :=
+  Pyx.Interp.program_refines hk kinds hok hD R A hc fuel body kw v st' h
+
+/-- for a model without identifying id attributes the condition is void; and the initial states qualify -/
+theorem program_refines_noid {decl : Nat → List AttrDecl} {at_ : Pyx.Meta.Attrs} {sch : Pyx.Meta.Schema} {d : MDict}
+    (hk : Function.Injective kname) (kinds : List Nat) (hok : SchemaOk sch)
+    (hD : ∀ k ∈ kinds, DeclOk decl at_ sch k) (hid : ∀ k, at_.idName k = none)
+    (R : RefinesA kname decl at_ sch ι s d st) (A : AllInv sch s) (hc : Closed kname kinds st)
+    (fuel : Nat) (body : Block) (kw : List (String × Val)) (v : Val) (st' : State)
+    (h : runFunction (ctxOfA kname decl kinds sch) fuel body kw st = some (.ok (v, st'))) :
+    (∃ ops ι', DomA decl at_ sch kinds s d ops ∧
+      RefinesA kname decl at_ sch ι' (mRunA decl at_ sch ops s d).1 (mRunA decl at_ sch ops s d).2 st') ∧
+    Closed kname kinds initState :=
+  ⟨Pyx.Interp.program_refines_noid hk kinds hok hD hid R A hc fuel body kw v st' h, closed_init kinds⟩
+
 /-! ### chain navigation over the refined store (Proofs/InterpNav.lean) -/
 
 /-- one navigation step — the direct link, or the two-hop `_find_assoc_links` through an association class with its
@@ -496,70 +581,49 @@ def checkSelect : Bool :=
 
 example : checkSelect = true := by decide +kernel
 
-/-- store refinement, non-vacuity: a 1:M schema that is `SchemaOk`, class names that are injective, and a history in the
-    domain with an accepted relate, a rejected relate, an unrelate and a delete -/
-def schS : Pyx.Meta.Schema :=
-  [{ rel := "R2", srcKind := 0, srcKeys := ["A_ID"], srcMany := true, srcCond := true, srcPhrase := "",
-     tgtKind := 1, tgtKeys := ["ID"], tgtMany := false, tgtCond := true, tgtPhrase := "" }]
-def histS : List Pyx.Meta.Op :=
-  [.new 0 true, .new 1 true, .new 1 true, .relate 0 1 "R2" "", .relate 0 2 "R2" "", .unrelate 1 0 "R2" "", .delete 1]
-def knameS (k : Nat) : String := String.ofList (List.replicate (k + 1) 'K')
+/-- store / attribute refinement, non-vacuity (Proofs/InterpExamples.lean): the 1:M schema `schS` is `SchemaOk`, the class
+    names `knameS` are injective, the history `histS` (an accepted relate, a rejected relate, an unrelate, a delete) is in
+    the domain, the declarations `declS` are consistent with the schema (`DeclOk`) -/
+example : Pyx.Meta.SchemaOk schS ∧ Dom' [0, 1] schS Pyx.Meta.init histS := schS_ok
+example : Function.Injective knameS := knameS_inj
+example : DeclOk declS atS schS 0 ∧ DeclOk declS atS schS 1 := declS_ok
 
-example : Pyx.Meta.SchemaOk schS ∧ Dom' [0, 1] schS Pyx.Meta.init histS := by
-  refine ⟨?_, ?_⟩
-  · intro i a h
-    match i, h with
-    | 0, h => simp [schS] at h; subst h; decide
-    | i + 1, h => simp [schS] at h
-  · simp only [histS, Dom', OpOk', and_true]
-    decide
+/-- program execution meets the mechanism, non-vacuity: on the context of `schS` / `declS` (classes `K`, `KK`) the program
+    `create object instance a of K; create object instance b of KK; create object instance c of KK; relate a to b across R2;
+     a.n = 5; unrelate a from b across R2; relate a to c across R2; delete object instance b; return a.n;`
+    run from the initial state ends normally (value 5), so `program_refines` applies with the initial states: its final
+    state is reached through a history of state operations and — the history assigning no id attribute — corresponds to
+    the mechanism state after a history of mechanism operations -/
+def progS : Block := [
+  .create (some "a") "K", .create (some "b") "KK", .create (some "c") "KK",
+  .relate "a" "b" "R2" "", .assignField (.var "a") "n" (.int 5),
+  .unrelate "a" "b" "R2" "", .relate "a" "c" "R2" "", .delete "b",
+  .ret (some (.field (.var "a") "n"))]
 
-example : Function.Injective knameS := by
-  intro a b h
-  have h1 := congrArg String.toList h
-  simp only [knameS, String.toList_ofList] at h1
-  have := congrArg List.length h1
-  simpa using this
-
-/-- attribute refinement, non-vacuity: declarations consistent with the schema (`DeclOk`), and a history with attribute
-    writes in the domain `DomA` -/
-def declS (k : Nat) : List AttrDecl :=
-  if k = 0 then [⟨"ID", .uniqueId, false⟩, ⟨"A_ID", .uniqueId, true⟩, ⟨"n", .integer, false⟩]
-  else [⟨"ID", .uniqueId, false⟩, ⟨"n", .integer, false⟩]
-def atS : Pyx.Meta.Attrs := { idName := fun _ => some "ID" }
-
-example : DeclOk declS atS schS 0 ∧ DeclOk declS atS schS 1 := by
-  constructor
-  · refine ⟨by decide, ?_, ?_, ?_, by decide⟩
-    · intro a ha
-      have ha' : a ∈ ([⟨"ID", .uniqueId, false⟩, ⟨"A_ID", .uniqueId, true⟩, ⟨"n", .integer, false⟩] : List AttrDecl) := ha
-      simp only [List.mem_cons, List.not_mem_nil, or_false] at ha'
-      rcases ha' with rfl | rfl | rfl <;> decide
-    · intro n hn
-      simp only [atS, Option.some.injEq] at hn
-      subst hn
-      exact ⟨⟨"ID", .uniqueId, false⟩, by simp [declS], rfl, rfl, rfl⟩
-    · intro a ha hnr hu
-      have ha' : a ∈ ([⟨"ID", .uniqueId, false⟩, ⟨"A_ID", .uniqueId, true⟩, ⟨"n", .integer, false⟩] : List AttrDecl) := ha
-      simp only [List.mem_cons, List.not_mem_nil, or_false] at ha'
-      rcases ha' with rfl | rfl | rfl
-      · rfl
-      · cases hnr
-      · cases hu
-  · refine ⟨by decide, ?_, ?_, ?_, by decide⟩
-    · intro a ha
-      have ha' : a ∈ ([⟨"ID", .uniqueId, false⟩, ⟨"n", .integer, false⟩] : List AttrDecl) := ha
-      simp only [List.mem_cons, List.not_mem_nil, or_false] at ha'
-      rcases ha' with rfl | rfl <;> decide
-    · intro n hn
-      simp only [atS, Option.some.injEq] at hn
-      subst hn
-      exact ⟨⟨"ID", .uniqueId, false⟩, by simp [declS], rfl, rfl, rfl⟩
-    · intro a ha hnr hu
-      have ha' : a ∈ ([⟨"ID", .uniqueId, false⟩, ⟨"n", .integer, false⟩] : List AttrDecl) := ha
-      simp only [List.mem_cons, List.not_mem_nil, or_false] at ha'
-      rcases ha' with rfl | rfl
-      · rfl
-      · cases hu
+example : ∃ st' es, runFunction (ctxOfA knameS declS [0, 1] schS) 12 progS [] initState = some (.ok (.int 5, st')) ∧
+    applyEffs (ctxOfA knameS declS [0, 1] schS) es initState = .ok st' ∧
+    ((∀ e ∈ es, NoIdWrite knameS atS e) →
+      ∃ ops ι', DomA declS atS schS [0, 1] Pyx.Meta.init ⟨fun _ _ => .none⟩ ops ∧
+        RefinesA knameS declS atS schS ι' (mRunA declS atS schS ops Pyx.Meta.init ⟨fun _ _ => .none⟩).1
+          (mRunA declS atS schS ops Pyx.Meta.init ⟨fun _ _ => .none⟩).2 st') := by
+  have ok_of_valOf : ∀ {r : Option (Except Err (Val × State))} {v : Val}, valOf r = some v →
+      ∃ st', r = some (.ok (v, st')) := by
+    intro r v h
+    unfold valOf at h
+    split at h
+    · rename_i w st'; cases h; exact ⟨st', rfl⟩
+    · cases h
+  obtain ⟨st', h⟩ := ok_of_valOf (r := runFunction (ctxOfA knameS declS [0, 1] schS) 12 progS [] initState)
+    (v := .int 5) (by decide +kernel)
+  have hD : ∀ k ∈ [0, 1], DeclOk declS atS schS k := by
+    intro k hk
+    simp only [List.mem_cons, List.not_mem_nil, or_false] at hk
+    rcases hk with rfl | rfl
+    · exact declS_ok.1
+    · exact declS_ok.2
+  obtain ⟨es, h1, h2⟩ := program_refines knameS_inj [0, 1] schS_ok.1 hD
+    (refinesA_init knameS declS atS schS (fun _ => ⟨"", 0⟩) ⟨fun _ _ => .none⟩) (Pyx.Meta.allInv_init schS)
+    (closed_init [0, 1]) 12 progS [] (.int 5) st' h
+  exact ⟨st', es, h, h1, h2⟩
 
 end PyxProps.C04
